@@ -109,7 +109,6 @@ type modw struct {
 	steps   []string // Coq step terms
 	view0   string
 	initArg string
-	prev    string
 	nsteps  int
 	nextBat int64
 }
@@ -527,35 +526,55 @@ func (m *modw) view() *View {
 func coqObjs(os []objView) string {
 	var items []string
 	for _, o := range os {
-		var cs []string
-		for _, e := range o.Conf {
-			cs = append(cs, fmt.Sprint(e))
-		}
-		items = append(items, fmt.Sprintf("(%d, %d, %s)", o.N, o.H, lib.List(cs)))
+		items = append(items, coqObj(o))
 	}
 	return lib.List(items)
 }
 
+func coqRec(r oracleRec) string {
+	return fmt.Sprintf("mkOracle %s %s %s %s %d %s %s %d", lib.Z(int64(r.A)), lib.Z(int64(r.B)), lib.Z(int64(r.E)), r.Amount, r.Start,
+		lib.Bool(r.Online), lib.Z(int64(r.V)), r.Slash)
+}
+func coqObj(o objView) string {
+	var cs []string
+	for _, e := range o.Conf {
+		cs = append(cs, fmt.Sprint(e))
+	}
+	return fmt.Sprintf("(%d, %d, %s)", o.N, o.H, lib.List(cs))
+}
+func coqPairs(ps [][2]int) string {
+	var out []string
+	for _, p := range ps {
+		out = append(out, lib.Pair(lib.Z(int64(p[0])), lib.Z(int64(p[1]))))
+	}
+	return lib.List(out)
+}
+func coqInts(l []int) string {
+	var out []string
+	for _, a := range l {
+		out = append(out, lib.Z(int64(a)))
+	}
+	return lib.List(out)
+}
+func coqDeleg(ds [][3]*big.Int) string {
+	var out []string
+	for _, d := range ds {
+		out = append(out, fmt.Sprintf("(%s, %s, %s)", d[0], d[1], d[2]))
+	}
+	return lib.List(out)
+}
+func coqUbds(us [][4]*big.Int) string {
+	var out []string
+	for _, u := range us {
+		out = append(out, fmt.Sprintf("(%s, %s, %s, %s)", u[0], u[1], u[2], u[3]))
+	}
+	return lib.List(out)
+}
+
 func (v *View) coq() string {
-	var recs, byb, bye, prop, del, ubd, bo, bd []string
+	var recs, bo, bd []string
 	for _, r := range v.Recs {
-		recs = append(recs, fmt.Sprintf("mkOracle %s %s %s %s %d %s %s %d", lib.Z(int64(r.A)), lib.Z(int64(r.B)), lib.Z(int64(r.E)), r.Amount, r.Start,
-			lib.Bool(r.Online), lib.Z(int64(r.V)), r.Slash))
-	}
-	for _, p := range v.ByB {
-		byb = append(byb, lib.Pair(lib.Z(int64(p[0])), lib.Z(int64(p[1]))))
-	}
-	for _, p := range v.ByE {
-		bye = append(bye, lib.Pair(lib.Z(int64(p[0])), lib.Z(int64(p[1]))))
-	}
-	for _, a := range v.Prop {
-		prop = append(prop, lib.Z(int64(a)))
-	}
-	for _, d := range v.Deleg {
-		del = append(del, fmt.Sprintf("(%s, %s, %s)", d[0], d[1], d[2]))
-	}
-	for _, u := range v.Ubds {
-		ubd = append(ubd, fmt.Sprintf("(%s, %s, %s, %s)", u[0], u[1], u[2], u[3]))
+		recs = append(recs, coqRec(r))
 	}
 	for _, b := range v.BalO {
 		bo = append(bo, b.String())
@@ -563,8 +582,77 @@ func (v *View) coq() string {
 	for _, b := range v.BalD {
 		bd = append(bd, b.String())
 	}
-	return fmt.Sprintf("(mkView %s %s %s %s %s %s %s %s %s %s %d %s %d)", lib.List(recs), lib.List(byb), lib.List(bye), lib.List(prop),
-		v.Power, lib.List(del), lib.List(ubd), lib.List(bo), lib.List(bd), coqObjs(v.Sets), v.SlashedSet, coqObjs(v.Batches), v.SlashedBat)
+	return fmt.Sprintf("(mkView %s %s %s %s %s %s %s %s %s %s %d %s %d)", lib.List(recs), coqPairs(v.ByB), coqPairs(v.ByE), coqInts(v.Prop),
+		v.Power, coqDeleg(v.Deleg), coqUbds(v.Ubds), lib.List(bo), lib.List(bd), coqObjs(v.Sets), v.SlashedSet, coqObjs(v.Batches), v.SlashedBat)
+}
+
+// deltas: Coq list of vdelta turning the previous observed view into this one
+func (v *View) deltas(p *View) string {
+	var ds []string
+	seen := map[int]bool{}
+	for _, r := range v.Recs {
+		seen[r.A] = true
+		if q := p.rec(r.A); q == nil || coqRec(*q) != coqRec(r) {
+			ds = append(ds, fmt.Sprintf("DRec %s (Some (%s))", lib.Z(int64(r.A)), coqRec(r)))
+		}
+	}
+	for _, q := range p.Recs {
+		if !seen[q.A] {
+			ds = append(ds, fmt.Sprintf("DRec %s None", lib.Z(int64(q.A))))
+		}
+	}
+	if a, b := coqPairs(v.ByB), coqPairs(p.ByB); a != b {
+		ds = append(ds, "DByB "+a)
+	}
+	if a, b := coqPairs(v.ByE), coqPairs(p.ByE); a != b {
+		ds = append(ds, "DByE "+a)
+	}
+	if a, b := coqInts(v.Prop), coqInts(p.Prop); a != b {
+		ds = append(ds, "DProp "+a)
+	}
+	if v.Power.Cmp(p.Power) != 0 {
+		ds = append(ds, "DPower "+v.Power.String())
+	}
+	if a, b := coqDeleg(v.Deleg), coqDeleg(p.Deleg); a != b {
+		ds = append(ds, "DDeleg "+a)
+	}
+	if a, b := coqUbds(v.Ubds), coqUbds(p.Ubds); a != b {
+		ds = append(ds, "DUbds "+a)
+	}
+	for i := range v.BalO {
+		if v.BalO[i].Cmp(p.BalO[i]) != 0 {
+			ds = append(ds, fmt.Sprintf("DBalO %d %s", i, v.BalO[i]))
+		}
+		if v.BalD[i].Cmp(p.BalD[i]) != 0 {
+			ds = append(ds, fmt.Sprintf("DBalD %d %s", i, v.BalD[i]))
+		}
+	}
+	objDelta := func(cur, old []objView, one, all string) {
+		if len(cur) < len(old) {
+			ds = append(ds, all+" "+coqObjs(cur))
+			return
+		}
+		for i, o := range cur {
+			if i < len(old) && old[i].N != o.N {
+				ds = append(ds, all+" "+coqObjs(cur))
+				return
+			}
+		}
+		for i, o := range cur {
+			if i >= len(old) || coqObj(old[i]) != coqObj(o) {
+				ds = append(ds, one+" "+coqObj(o))
+			}
+		}
+	}
+	objDelta(v.Sets, p.Sets, "DSet", "DSets")
+	if v.SlashedSet != p.SlashedSet {
+		ds = append(ds, fmt.Sprintf("DSlashedSet %d", v.SlashedSet))
+	}
+	objDelta(v.Batches, p.Batches, "DBatch", "DBatches")
+	if v.SlashedBat != p.SlashedBat {
+		ds = append(ds, fmt.Sprintf("DSlashedBat %d", v.SlashedBat))
+	}
+	return lib.List(ds)
 }
 
 func mustVal(s string) sdk.ValAddress {
